@@ -805,8 +805,10 @@ func c06Listener(ctx *core.Ctx, server string, dotu bool) core.Result {
 	_ = os.Remove(sock)
 	defer os.Remove(sock)
 	served := make(chan error, 1)
+	var l net.Listener
 	if dotu {
-		l, err := net.Listen("unix", sock)
+		var err error
+		l, err = net.Listen("unix", sock)
 		if err != nil {
 			res.Inconclusive = "c06: cannot listen on a unix socket: " + err.Error()
 			return res
@@ -918,7 +920,9 @@ func c06Listener(ctx *core.Ctx, server string, dotu bool) core.Result {
 		res.Sig(fmt.Sprintf("%s|%v|listener|%s", server, dotu, kind))
 	}
 	h.check("listener sessions", "listener")
-	_ = l.Close()
+	if l != nil {
+		_ = l.Close()
+	}
 	return res
 }
 
